@@ -105,7 +105,10 @@ class DepartureRun(PubSubRun):
                 if k == "hdr":
                     k = 1 + ch.pick("dep.wkh", self.w.net.hs)
                 elif k == "any":
-                    k = ch.pick("dep.wka", 200)
+                    k = ch.weighted("dep.wka_kind", [(6, "low"), (1, 1000), (1, 1983), (1, 1984), (1, 1985), (1, 5000),
+                                                     (1, 20855), (1, 20856)])
+                    if k == "low":
+                        k = ch.pick("dep.wka", 200)
             ms.fault_after = k
             ms.fault_kind = fkind
             self.res.stats["armed_write_fault"] += 1
